@@ -89,7 +89,7 @@ PROPS = {
     },
     "C11": {
         "modules": ["contracts.c11_ports", "contracts.server_units", "contracts.dispatcher_units"],
-        "unit_filter": ["Server._start_passive_server", "Server._start_passive_server#PIPE", "Server.pasv#SEQ", "Server.epsv#SEQ", "Server.dispatcher/finally"],
+        "unit_filter": ["Server._start_passive_server", "Server._start_passive_server#PIPE", "Server.pasv#SEQ", "Server.epsv#SEQ", "Server.dispatcher/finally", "Server.__init__"],
         "level": "proof",
         "trusted_base": [T_PY, T_ENGINE, T_SOLVER, T_AIO, T_CONN, T_IND],
         "assumptions": ["PriorityQueue modelled as a multiset of ports (priorities ignored: the ledger is about ports)"],
@@ -98,7 +98,7 @@ PROPS = {
     },
     "C12": {
         "modules": ["contracts.worker_units", "contracts.dispatcher_units", "contracts.c11_ports"],
-        "unit_filter": ["retr_worker@retr", "stor_worker@stor", "stor_worker@appe", "list_worker@list", "mlsd_worker@mlsd", "Server.dispatcher/finally", "Server._start_passive_server"],
+        "unit_filter": ["retr_worker@retr", "stor_worker@stor", "stor_worker@appe", "list_worker@list", "mlsd_worker@mlsd", "Server.dispatcher/finally", "Server._start_passive_server", "Server.close"],
         "level": "proof",
         "trusted_base": [T_PY, T_ENGINE, T_SOLVER, T_AIO, T_CONN, T_IND],
         "assumptions": [
@@ -136,13 +136,15 @@ PROPS = {
         "explanation": "",
     },
     "C15": {
-        "modules": ["contracts.c15_throttle"],
+        "modules": ["contracts.c15_throttle", "contracts.dispatcher_units", "contracts.c16_timeouts", "contracts.server_units", "contracts.c01_transfer"],
+        "unit_filter_prefix": ["Throttle", "lemma:single-owner-trace-bound", "Server.__init__", "Server.dispatcher/set-up", "Server.user#SEQ", "Server.pasv.<locals>", "Server.epsv.<locals>", "BaseClient.__init__", "BaseClient.connect", "Client.get_stream"],
+        "extra": ["contracts.c15_throttle.wiring_audit"],
         "level": "proof",
         "trusted_base": [T_PY, T_ENGINE, T_SOLVER, T_AIO],
         "assumptions": ["P-float: clock values, limits and reset periods are reals (IEEE rounding ignored); round(x) is an integer within 1/2 of x", "single owner: the I/O start times seen by one Throttle are non-decreasing"],
         "not_decided": [
             "the multi-stream sum bound ('one block in flight per participating stream') for a Throttle shared by several connections: needs a history argument over interleaved owners",
-            "which Throttle objects are shared and which are cloned by Server.dispatcher / Server.user / the passive handlers / the client (wiring; not under contract yet)",
+            "the wiring is proved per construction site (Server.__init__, dispatcher set-up, USER, the passive accept callbacks, BaseClient.__init__/connect, Client.get_stream: which Throttle object each stream carries, shared vs fresh, limits taken from which setting); that no *other* code replaces a stream's throttles dict later is the frame condition checked by contracts.c15_throttle.wiring_audit (AST enumeration of every store/mutation of a throttles mapping or throttle attribute; a site outside the contracts makes the check undecided)",
             "end-to-end durations in real or virtual time",
         ],
         "explanation": "",
@@ -160,8 +162,8 @@ PROPS = {
         "explanation": "",
     },
     "C16": {
-        "modules": ["contracts.c16_timeouts", "contracts.dispatcher_units", "contracts.worker_units", "contracts.server_units", "contracts.c15_throttle"],
-        "unit_filter_prefix": ["ThrottleStreamIO.", "StreamIO", "Server.pasv.<locals>", "Server.epsv.<locals>", "Server.dispatcher/set-up", "retr_worker@", "stor_worker@", "list_worker@", "mlsd_worker@", "Server."],
+        "modules": ["contracts.c16_timeouts", "contracts.dispatcher_units", "contracts.worker_units", "contracts.server_units", "contracts.c15_throttle", "contracts.c01_transfer"],
+        "unit_filter_prefix": ["ThrottleStreamIO.", "StreamIO", "Server.pasv.<locals>", "Server.epsv.<locals>", "Server.dispatcher/set-up", "retr_worker@", "stor_worker@", "list_worker@", "mlsd_worker@", "Server.", "BaseClient.__init__", "BaseClient.connect", "Client.get_stream"],
         "level": "proof",
         "trusted_base": [T_PY, T_ENGINE, T_SOLVER, T_AIO, T_CONN],
         "assumptions": [
